@@ -189,7 +189,10 @@ ValsOf(t, m) ==
     [] t = "mvhd" -> {VMvhd(m, v) : v \in {0, 1}}
     [] t = "tkhd" -> {VTkhd(m, v) : v \in {0, 1}}
     [] t = "mdhd" -> {VMdhd(m, v) : v \in {0, 1}}
+    \* names whose first byte, read as a number, is (about) the length of the name: what a counted
+    \* "Pascal" string would look like, with and without counting the byte itself / the terminator
     [] t = "hdlr" -> {VHdlr(m, n) : n \in {0, 3}}
+                     \cup {[VHdlr(m, 0) EXCEPT !.name = <<n>> \o [i \in 1..k |-> 97 + (i % 26)]] : n \in {9, 32}, k \in {7, 8, 9, 30, 31, 32}}
     [] t = "vmhd" -> {VVmhd(m)}
     [] t = "smhd" -> {VSmhd(m)}
     [] t = "url " -> {VUrl(m, n) : n \in {0, 4}}
@@ -215,7 +218,10 @@ ValsOf(t, m) ==
     \* numOfPictureParameterSets is a full byte (numOfSequenceParameterSets has 5 bits): 33 and 255 sets
     [] t = "avcC" -> {VAvcC(m, a, b) : a \in 0..2, b \in 0..2} \cup {VAvcCMany(m, 31, 33), VAvcCMany(m, 1, 255)}
     [] t = "avc1" -> {VAvc1(m, a, b) : a \in 0..1, b \in 0..1}
+    \* ... and NAL units of 65534 / 65535 bytes (2 + length no longer fits 16 bits)
     [] t = "hvcC" -> {VHvcC(m, a, b) : a \in 0..2, b \in 0..2}
+                     \cup {[VHvcC(m, 0, 0) EXCEPT !.arrays = <<[completeness |-> TRUE, nal_unit_type |-> 32,
+                                                                nalus |-> <<[size |-> n, data |-> [i \in 1..n |-> (i * 7) % 256]]>>]>>] : n \in {65534, 65535}}
     [] t = "hev1" -> {VHev1(m, a, b) : a \in 0..1, b \in 0..1}
     [] t = "vpcC" -> {VVpcC(m)}
     [] t = "vp09" -> {VVp09(m)}
